@@ -462,6 +462,13 @@ class _SubstEnv(ast.NodeTransformer):
         self.bound = saved
         return node
 
+    def visit_Attribute(self, node):
+        d = dotted(node)
+        if d is not None and d in self.env and isinstance(node.ctx, ast.Load):
+            import copy
+            return copy.deepcopy(self.env[d])
+        return self.generic_visit(node)
+
 
 def straightline(stmts, env=None):
     """Sequential substitution through simple statements: returns (env, return-expression or None, rest) where env maps
@@ -610,3 +617,107 @@ def grow_multiset(stmts, L):
         return True
 
     return out if visit(stmts, None) else None
+
+
+def straightline_ex(stmts, env=None, effect_havoc=None):
+    """straightline() with attribute stores tracked (`self.a = e` binds the dotted name) and side-effect calls recorded.
+    effect_havoc: callable(call node) -> iterable of dotted names whose value is unknown after that call (they are bound
+    to the marker Name `<after:callee>`).  Returns dict(env, ret, rest, effects) where effects is the list of
+    (substituted call expr, index of the statement)."""
+    import copy
+    env = dict(env or {})
+    effects = []
+    for i, st in enumerate(stmts):
+        if isinstance(st, ast.Expr) and isinstance(st.value, ast.Constant):
+            continue
+        if isinstance(st, ast.Pass):
+            continue
+        tgt = None
+        if isinstance(st, ast.Assign) and len(st.targets) == 1:
+            tgt, val = st.targets[0], st.value
+        elif isinstance(st, ast.AnnAssign) and st.value is not None:
+            tgt, val = st.target, st.value
+        elif isinstance(st, ast.AnnAssign) and st.value is None:
+            continue
+        if tgt is not None:
+            key = tgt.id if isinstance(tgt, ast.Name) else dotted(tgt)
+            sub = _SubstEnv(env).visit(copy.deepcopy(val))
+            for c in ast.walk(sub):
+                pass
+            if key is not None:
+                env[key] = sub
+                continue
+            if isinstance(tgt, ast.Subscript):
+                effects.append((ast.Assign(targets=[_SubstEnv(env).visit(copy.deepcopy(tgt))], value=sub), i))
+                continue
+            return {"env": env, "ret": None, "rest": stmts[i:], "effects": effects}
+        if isinstance(st, ast.AugAssign):
+            key = st.target.id if isinstance(st.target, ast.Name) else dotted(st.target)
+            if key is None:
+                return {"env": env, "ret": None, "rest": stmts[i:], "effects": effects}
+            cur = copy.deepcopy(env[key]) if key in env else copy.deepcopy(st.target)
+            if isinstance(cur, (ast.Name, ast.Attribute)):
+                cur.ctx = ast.Load()
+            env[key] = ast.BinOp(left=cur, op=st.op, right=_SubstEnv(env).visit(copy.deepcopy(st.value)))
+            continue
+        if isinstance(st, ast.Expr) and isinstance(st.value, ast.Call):
+            call = _SubstEnv(env).visit(copy.deepcopy(st.value))
+            effects.append((call, i))
+            if effect_havoc is not None:
+                for name in effect_havoc(st.value):
+                    env[name] = ast.Name(id=f"<after:{norm(st.value.func)}>", ctx=ast.Load())
+            continue
+        if isinstance(st, ast.Return):
+            val = _SubstEnv(env).visit(copy.deepcopy(st.value)) if st.value is not None else ast.Constant(value=None)
+            return {"env": env, "ret": val, "rest": [], "effects": effects}
+        return {"env": env, "ret": None, "rest": stmts[i:], "effects": effects}
+    return {"env": env, "ret": None, "rest": [], "effects": effects}
+
+
+# numpy call signatures used by the filters: positional parameter names and defaults
+_NP_SIG = {
+    "concatenate": (["arrays", "axis"], {"axis": "0"}),
+    "convolve": (["a", "v", "mode"], {"mode": "'full'"}),
+    "zeros": (["shape", "dtype"], {"dtype": "np.float64"}),
+    "asarray": (["a", "dtype"], {"dtype": "None"}),
+}
+
+
+class _NpCanon(ast.NodeTransformer):
+    def visit_Call(self, node):
+        self.generic_visit(node)
+        f = node.func
+        if isinstance(f, ast.Attribute) and isinstance(f.value, ast.Name) and f.value.id in ("np", "numpy") and f.attr in _NP_SIG \
+                and not any(isinstance(a, ast.Starred) for a in node.args) and all(k.arg for k in node.keywords):
+            params, defaults = _NP_SIG[f.attr]
+            if len(node.args) <= len(params):
+                bound = dict(zip(params, node.args))
+                for k in node.keywords:
+                    bound[k.arg] = k.value
+                kws = []
+                pos = []
+                for i, p in enumerate(params):
+                    if p not in bound:
+                        continue
+                    v = bound[p]
+                    txt = " ".join(ast.unparse(v).split())
+                    if p in defaults and txt in (defaults[p], defaults[p].replace("np.float64", "float"), defaults[p].replace("np.float64", "numpy.float64")):
+                        continue
+                    if p == "arrays" and isinstance(v, ast.Tuple):
+                        v = ast.List(elts=v.elts, ctx=ast.Load())
+                    if i == len(pos) and p not in defaults:
+                        pos.append(v)
+                    else:
+                        kws.append(ast.keyword(arg=p, value=v))
+                extra = [k for k in node.keywords if k.arg not in params]
+                node = ast.Call(func=ast.Attribute(value=ast.Name(id="np", ctx=ast.Load()), attr=f.attr, ctx=ast.Load()), args=pos,
+                                keywords=sorted(kws + extra, key=lambda k: k.arg))
+        return node
+
+
+def np_canon(e):
+    """canon_ast with numpy calls in a normal form (defaults dropped, keywords for optional parameters, list of arrays)"""
+    import copy
+    e = _NpCanon().visit(copy.deepcopy(e))
+    ast.fix_missing_locations(e)
+    return canon_ast(e)
